@@ -58,8 +58,36 @@ if os.path.exists(f'{V}/tools/mutants.json'):
         suite = 'passes' if r.get('compiles') and not r.get('suite_failures') else ('killed by the suite: ' + ', '.join(r.get('suite_failures', [])) if r.get('compiles') else 'does not compile')
         ch = '; '.join(f"{c}: " + ('caught' if v['exit'] == 1 else f"NOT caught (exit {v['exit']})") + (f" (`{esc(v['signatures'][0])}`)" if v['signatures'] else '') for c, v in r.get('checks', {}).items())
         mut.append('| %s | `%s`: %s | %s | %s |' % (m['id'], m['file'], esc(m['what']), suite, ch))
+
+ORACLE = {
+ 'C01': 'reference ISA table; concatenation relation', 'C02': 'reference layout walk over the image, symbols, VICE labels',
+ 'C03': 'reference evaluator', 'C04': 'located-diagnostic predicate, exit status, target directory snapshot',
+ 'C05': 'print(parse(t)) == t up to keyword case/CRLF; loss => diagnostic', 'C06': 'crash/abort monitor, pass-digest divergence, output-or-diagnostic, span validity',
+ 'C07': 'bytes(P) == bytes(expand_k(P)), anchored by the layout model', 'C08': 'canonical vs random trivia/case rendering of one AST',
+ 'C09': 'bank layout model (bytes of every output file, or rejection)', 'C10': 'identical outputs and messages across fresh hash seeds and processes',
+ 'C11': '(statement, value) -> address relation of the layout model; listing parsed back', 'C12': 'parse-clean, token skeleton, comments, bytes and diagnostics before/after',
+ 'C13': 'format(format(p)) == format(p)', 'C14': 'two fresh servers; liveness; range / semantic-token well-formedness',
+ 'C15': 'binding model edit set; build before/after; rename back; two-file projects', 'C16': 'binding model, anchored by image == layout model; two-file projects',
+ 'C17': 'LSP edits applied per the specification vs `mos format`', 'C18': 'reference 6502 + assertion evaluator (self-tested against emulator_6502)',
+ 'C19': 'reference trace located through the adapter cycle counter', 'C20': 'exit status 0, port free, deadlock witness',
+}
+ev = ['| id | tier | generated cases | distinct non-trivial | wall | oracle | non-trivial rule |', '|---|---|---|---|---|---|---|']
+for i in range(1, 21):
+    cid = 'C%02d' % i
+    f = f'{V}/evidence/{cid}.json'
+    if not os.path.exists(f):
+        continue
+    e = json.load(open(f)); c = e.get('coverage', {})
+    rule = c.get('rule') or e.get('rule') or ''
+    m = re.search(r'non-trivial = ([^.]*)', rule)
+    nt = m.group(1).split(';')[0].strip() if m else 'every case'
+    extra = ''
+    if c.get('fuzz'):
+        extra = f" + {c['fuzz']['executions']} libFuzzer executions"
+    ev.append('| %s | %s | %s%s | %s | %s s | %s | %s |' % (cid, e.get('tier', ''), c.get('evaluations', ''), extra, c.get('distinct_nontrivial', ''), round(e.get('wall_s', 0)), ORACLE.get(cid, ''), esc(nt)[:160]))
+
 p = f'{V}/DESIGN.md'; s = open(p).read()
-for name, body in [('FIXED_TABLE', '\n'.join(fixed)), ('OPEN_TABLE', '\n'.join(opn)), ('SEEDED_TABLE', '\n'.join(seed)), ('MUTANT_TABLE', '\n'.join(mut))]:
+for name, body in [('FIXED_TABLE', '\n'.join(fixed)), ('OPEN_TABLE', '\n'.join(opn)), ('SEEDED_TABLE', '\n'.join(seed)), ('MUTANT_TABLE', '\n'.join(mut)), ('EVIDENCE_TABLE', '\n'.join(ev))]:
     a, b = f'<!-- {name}_BEGIN -->', f'<!-- {name}_END -->'
     if a in s and b in s:
         i = s.index(a) + len(a); j = s.index(b)
